@@ -6,6 +6,7 @@ import (
 	"bytes"
 	"errors"
 	"io"
+	"strings"
 
 	jsonMsg "github.com/fatedier/golib/msg/json"
 
@@ -282,4 +283,72 @@ func VerifC17Registry() {
 	var buf bytes.Buffer
 	zzverif.Assert(WriteMsg(&buf, &c17Unregistered{}) == jsonMsg.ErrMsgType && buf.Len() == 0, "C17.registry.unregistered-type-refused")
 	zzverif.Reach("C17.registry.done")
+}
+
+// JSON field names of the released protocol (the pinned tree), per type byte; 'C', 'R', 'B' stand
+// for the nested ClientSpec, PortsRange and NatHoleDetectBehavior structures.
+var c17Released = map[byte][]string{
+	'1': {"version", "run_id", "error"},
+	'2': {"proxy_name", "remote_addr", "error"},
+	'3': {"proxy_name", "error"},
+	'4': {"error"},
+	'5': {"transaction_id", "sid", "response", "nonce"},
+	'6': {"sid", "success"},
+	'c': {"proxy_name"},
+	'h': {"privilege_key", "timestamp"},
+	'i': {"transaction_id", "proxy_name", "pre_check", "protocol", "sign_key", "timestamp", "mapped_addrs", "assisted_addrs"},
+	'm': {"transaction_id", "sid", "protocol", "candidate_addrs", "assisted_addrs", "detect_behavior", "error"},
+	'n': {"transaction_id", "proxy_name", "sid", "mapped_addrs", "assisted_addrs"},
+	'o': {"version", "hostname", "os", "arch", "user", "privilege_key", "timestamp", "run_id", "metas", "client_spec", "pool_count"},
+	'p': {"proxy_name", "proxy_type", "use_encryption", "use_compression", "bandwidth_limit", "bandwidth_limit_mode", "group", "group_key", "metas", "annotations", "remote_port", "custom_domains", "subdomain", "locations", "http_user", "http_pwd", "host_header_rewrite", "headers", "response_headers", "route_by_http_user", "sk", "allow_users", "multiplexer"},
+	'r': {},
+	's': {"proxy_name", "src_addr", "dst_addr", "src_port", "dst_port", "error"},
+	'u': {"c", "l", "r"},
+	'v': {"run_id", "proxy_name", "sign_key", "timestamp", "use_encryption", "use_compression"},
+	'w': {"run_id", "privilege_key", "timestamp"},
+	'C': {"type", "always_auth_pass"},
+	'R': {"from", "to"},
+	'B': {"role", "mode", "ttl", "send_delay_ms", "read_timeout", "candidate_ports", "send_random_ports", "listen_random_ports"},
+}
+
+func c17JSONNames(tags string) (names []string) {
+	for len(tags) > 0 {
+		i := strings.IndexByte(tags, ';')
+		f := tags[:i]
+		tags = tags[i+1:]
+		f = f[strings.IndexByte(f, '=')+1:]
+		if j := strings.IndexByte(f, ','); j >= 0 {
+			f = f[:j]
+		}
+		names = append(names, f)
+	}
+	return
+}
+
+// VerifC17Fields: every message kind still carries every JSON field name of the released
+// protocol (names are read from the struct tags of the current source), so that two builds of
+// the same protocol version understand each other's bodies.
+func VerifC17Fields() {
+	check := func(k byte, v any) {
+		have := c17JSONNames(zzverif.FieldTags(v))
+		for _, want := range c17Released[k] {
+			found := false
+			for _, h := range have {
+				if h == want {
+					found = true
+				}
+			}
+			zzverif.Assert(found, "C17.fields.released-json-field-name-present")
+			zzverif.Assert(want != "-", "C17.fields.released-field-not-hidden")
+		}
+	}
+	for _, b := range c17Bytes {
+		m, ok := msgTypeMap[b]
+		zzverif.Assert(ok, "C17.fields.released-kind-registered")
+		check(b, m)
+	}
+	check('C', ClientSpec{})
+	check('R', PortsRange{})
+	check('B', NatHoleDetectBehavior{})
+	zzverif.Reach("C17.fields.done")
 }
